@@ -32,8 +32,10 @@ def builder_constructors(chk, F, rule, cfg):
             for p in symex.Interp(F).run(fn):
                 v = strip(p.outcome[1])
                 w = strip(dict(v[4]).get('wrapper', ('unk', ''))) if v[0] == 'agg' else ('unk', '')
-                inner = strip(w[4][0][1]) if w[0] == 'agg' and w[3] == 'Owned' else ('unk', '')
-                ok = is_call(inner, r'DynCallPatternBuilder::new$') and strip(inner[2][0]) == ('param', 0, 2) and strip(inner[2][1]) == ('param', 0, 1)
+                # the wrapper (whatever its representation) owns the builder made from exactly (mode, matcher)
+                news = [x for x in symex.subvalues(w) if is_call(x, r'DynCallPatternBuilder::new$')]
+                inner = news[0] if len(set(x[3] for x in news)) == 1 else ('unk', '')
+                ok = is_call(inner, r'DynCallPatternBuilder::new$') and strip(inner[2][0]) == ('param', 0, 2) and strip(inner[2][1]) == ('param', 0, 1) and not mentions(w, lambda x: x[0] == 'ref' and x[1][0][0] == 'ptr')
                 chk.ob(rule, '%s::with_owned_builder keeps (mode, matcher) as given' % ty, ok, config=cfg, fn=fn, site='with_owned_builder', what='with_owned_builder %s' % show(inner)[:80], found=show(inner)[:160])
     nb = F.fn('build::dyn_builder::DynCallPatternBuilder::new')
     for p in symex.Interp(F, inline=lambda f, d, n: f.name in ('default', 'new') and 'counter::' in f.defp).run(nb):
@@ -128,12 +130,17 @@ def reporter_storage(chk, F, rule, cfg):
 
 
 def push_value_mut(chk, F, rule, cfg):
+    """push_mut as a whole (its private steps are part of it): the chain's root is replaced by a node built from this call's value, and
+    what is lent is the downcast of exactly that node's `.value`, reached through the root cell of this chain"""
     n0 = len(chk.obligations)
-    fn = F.fn('value_chain::ValueChain::push_value_mut')
-    for p in symex.Interp(F).run(fn):
+    fn = F.method('value_chain::ValueChain', 'push_mut')
+    vc_inline = lambda f_, d_, n_: f_.defp.startswith('value_chain::') and f_.kind in ('fn', 'assoc') and not re.search(r'Node::new$|Value::downcast_(ref|mut)$', f_.defp)  # noqa: E731
+    for p in symex.Interp(F, inline=vc_inline).run(fn):
         ws = [e for e in p.effects if e.kind == 'write' and e.data[0][1][-1:] == (('f', 'root'),)]
-        ok = len(ws) == 1 and mentions(ws[0].data[1], lambda x: is_call(x, r'Node::new$') and strip(x[2][0]) == ('param', 0, 2))
+        ok = len(ws) == 1 and mentions(ws[0].data[1], lambda x: is_call(x, r'Node::new$') and mentions(x, lambda y: y == ('param', 0, 2)))
         r = p.outcome[1] if p.outcome[0] == 'return' else ('unk', '')
-        okr = mentions(r, lambda x: is_call(x, r'OnceCell::get_mut$') and field_path(x[2][0]) == (('param', 0, 1), ['root'])) and field_path(r)[1][-1:] == ['value'] or 'value' in show(r)[-8:]
-        chk.ob(rule, 'the exclusive push replaces the chain with the new node and lends exactly that node\'s value', ok and okr, config=cfg, fn=fn, site='push_value_mut', what='push_value_mut root=%s ret=%s' % (ok, show(r)[:60]))
-    chk.floor(rule, 'push_value_mut paths', len(chk.obligations) - n0, 1, config=cfg)
+        okr = mentions(r, lambda x: is_call(x, r'OnceCell(<T>)?::get_mut$') and field_path(x[2][0]) == (('param', 0, 1), ['root'])) and \
+            mentions(r, lambda x: is_call(x, r'Value::downcast_mut$')) and \
+            mentions(r, lambda y: (y[0] == 'field' and y[2] == 'value') or (y[0] == 'ref' and any(e == ('f', 'value') for e in y[1][1])))
+        chk.ob(rule, 'the exclusive push replaces the chain with the new node and lends exactly that node\'s value', ok and okr, config=cfg, fn=fn, site='push_value_mut', what='push_mut root=%s ret=%s' % (ok, show(r)[:60]))
+    chk.floor(rule, 'push_mut paths', len(chk.obligations) - n0, 1, config=cfg)
